@@ -38,6 +38,11 @@ type c19Cfg struct {
 	Order  []int // Join order of parties 1..n-1
 	Mode   string
 	Freeze int
+	// mode "late": all parties Join (JoinGap between the calls), every party but
+	// Late starts Connect at once, party Late after StaggerMs
+	Late      int
+	StaggerMs int
+	JoinGapMs int
 }
 
 type c19Table struct {
@@ -178,10 +183,14 @@ func c19Run(cfg c19Cfg, rng *RNG) ([]c19Party, error) {
 			time.Sleep(d)
 			touch()
 		})
+	case "late":
+		// runs concurrently with other runs: leaves the global hook alone
 	default:
 		p2p.SetVerifYield(func(site string) { touch() })
 	}
-	defer p2p.SetVerifYield(nil)
+	if cfg.Mode != "late" {
+		defer p2p.SetVerifYield(nil)
+	}
 
 	nws := make([]*p2p.Network, n)
 	nws[0], err = p2p.Create(addrs[0], n, k)
@@ -189,6 +198,9 @@ func c19Run(cfg c19Cfg, rng *RNG) ([]c19Party, error) {
 		return nil, err
 	}
 	for _, j := range cfg.Order {
+		if cfg.JoinGapMs > 0 {
+			time.Sleep(time.Duration(rng.Intn(cfg.JoinGapMs+1)) * time.Millisecond)
+		}
 		nws[j], err = p2p.Join(addrs[0], addrs[j], j, k)
 		if err != nil {
 			for _, nw := range nws {
@@ -207,6 +219,9 @@ func c19Run(cfg c19Cfg, rng *RNG) ([]c19Party, error) {
 	delays := make([]time.Duration, n)
 	for i := range delays {
 		delays[i] = time.Duration(rng.Intn(3000)) * time.Microsecond
+		if cfg.Mode == "late" && i == cfg.Late {
+			delays[i] = time.Duration(cfg.StaggerMs) * time.Millisecond
+		}
 	}
 	var mu sync.Mutex
 	for i := 0; i < n; i++ {
@@ -270,6 +285,9 @@ func c19Run(cfg c19Cfg, rng *RNG) ([]c19Party, error) {
 		close(release)
 		touch()
 		waitRest(250*time.Millisecond, 5*time.Second)
+	} else if cfg.Mode == "late" {
+		st := time.Duration(cfg.StaggerMs) * time.Millisecond
+		waitRest(st+1500*time.Millisecond, st+8*time.Second)
 	} else {
 		waitRest(1500*time.Millisecond, 8*time.Second)
 	}
@@ -574,13 +592,8 @@ func runC19(c *Ctx) error {
 		cfgs = append(cfgs, c19Cfg{N: n, K: k, Order: c19Perm(c.rng, n, x%3), Mode: mode})
 	}
 
-	for _, cfg := range cfgs {
-		rng := c.rng.Fork()
-		res, err := c19Run(cfg, rng)
-		if err != nil {
-			return fmt.Errorf("c19 %+v: %v", cfg, err)
-		}
-		key := fmt.Sprintf("%d/%d/%v/%s/%d", cfg.N, cfg.K, cfg.Order, cfg.Mode, cfg.Freeze)
+	report := func(cfg c19Cfg, res []c19Party) {
+		key := fmt.Sprintf("%d/%d/%v/%s/%d/%d/%d", cfg.N, cfg.K, cfg.Order, cfg.Mode, cfg.Freeze, cfg.Late, cfg.StaggerMs)
 		c.Eval(key, cfg.N >= 3 || cfg.K >= 2)
 		c.Hist(fmt.Sprintf("n=%d", cfg.N))
 		c.Hist(fmt.Sprintf("k=%d", cfg.K))
@@ -593,22 +606,101 @@ func runC19(c *Ctx) error {
 		if len(symptoms) == 0 {
 			c.Hist("clean")
 			c.Case(input, obs)
-			continue
+			return
 		}
 		sym := c19Symptom(symptoms)
 		c.Hist("failing:" + cfg.Mode + ":" + sym)
 		var fkey string
-		if f11 {
+		switch {
+		case cfg.Mode == "late":
+			who := fmt.Sprintf("party%d", cfg.Late)
+			if cfg.Late == 0 {
+				who = "leader"
+			}
+			fkey = "c19:late-start:" + who + ":" + sym
+		case f11:
 			fkey = "c19:acceptConn:need-before-addPeer:" + cfg.Mode + ":" + sym
-		} else {
+		default:
 			fkey = "c19:" + cfg.Mode + ":" + sym
 		}
-		c.Fail(fkey, fmt.Sprintf("n=%d k=%d join order %v mode %s freeze %d: %v", cfg.N, cfg.K, cfg.Order, cfg.Mode, cfg.Freeze, symptoms),
-			map[string]interface{}{"cfg": cfg, "observed": obs.String(), "symptoms": symptoms})
+		what := fmt.Sprintf("n=%d k=%d join order %v mode %s freeze %d: %v", cfg.N, cfg.K, cfg.Order, cfg.Mode, cfg.Freeze, symptoms)
+		if cfg.Mode == "late" {
+			what = fmt.Sprintf("n=%d k=%d join order %v: all parties joined, party %d called Connect %d ms after the others: %v",
+				cfg.N, cfg.K, cfg.Order, cfg.Late, cfg.StaggerMs, symptoms)
+		}
+		c.Fail(fkey, what, map[string]interface{}{"cfg": cfg, "observed": obs.String(), "symptoms": symptoms})
 		if cfg.Mode == "freeze" {
 			// the schedule is known: the model must predict the same failure
 			c.Case(input, obs)
 		}
 	}
+	runOne := func(cfg c19Cfg, rng *RNG) ([]c19Party, error) {
+		var res []c19Party
+		var err error
+		for try := 0; try < 3; try++ { // a port taken by a concurrent run: try again
+			res, err = c19Run(cfg, rng)
+			if err == nil || !containsStr(err.Error(), "address already in use") {
+				break
+			}
+		}
+		return res, err
+	}
+
+	// late-start scenarios ("every order and timing in which the parties start"): they
+	// run concurrently with each other and with the free/delays runs below (never with the
+	// freeze runs, which count the calls of the global hook)
+	maxSt := c.N(2500, 6000)
+	var lates []c19Cfg
+	lateSpec := [][3]int{{2, 1, 1}, {3, 2, 2}, {4, 1, 0}, {5, 3, 3}, {3, 1, 1}}
+	if c.Thorough() {
+		lateSpec = append(lateSpec, [3]int{6, 2, 5}, [3]int{4, 4, 2}, [3]int{2, 3, 0}, [3]int{6, 1, 1}, [3]int{3, 3, 0})
+	}
+	for x, sp := range lateSpec {
+		lates = append(lates, c19Cfg{N: sp[0], K: sp[1], Order: c19Perm(c.rng, sp[0], x%3), Mode: "late", Late: sp[2],
+			StaggerMs: c.rng.Range(1200, maxSt), JoinGapMs: []int{0, 150, 400}[x%3]})
+	}
+	type lateRes struct {
+		res []c19Party
+		err error
+	}
+	lateOut := make([]lateRes, len(lates))
+	lateRngs := make([]*RNG, len(lates))
+	for i := range lates {
+		lateRngs[i] = c.rng.Fork()
+	}
+	var lateWG sync.WaitGroup
+	startLate := func() {
+		for i := range lates {
+			lateWG.Add(1)
+			go func(i int) {
+				defer lateWG.Done()
+				r, e := runOne(lates[i], lateRngs[i])
+				lateOut[i] = lateRes{r, e}
+			}(i)
+		}
+	}
+	lateStarted := false
+	for _, cfg := range cfgs {
+		if cfg.Mode != "freeze" && !lateStarted {
+			lateStarted = true
+			startLate()
+		}
+		res, err := runOne(cfg, c.rng.Fork())
+		if err != nil {
+			return fmt.Errorf("c19 %+v: %v", cfg, err)
+		}
+		report(cfg, res)
+	}
+	if !lateStarted {
+		startLate()
+	}
+	lateWG.Wait()
+	for i, cfg := range lates {
+		if lateOut[i].err != nil {
+			return fmt.Errorf("c19 %+v: %v", cfg, lateOut[i].err)
+		}
+		report(cfg, lateOut[i].res)
+	}
+	c19CheckTiming(c)
 	return nil
 }
